@@ -45,6 +45,8 @@ SOURCES = [
 INVALID = ['def exp { splitters: uid if plan = "pro" { return "A" weighted 1 } else { return "B" weighted 1 } }',
            "def chain { splitters: uid /* long parse */ " + _chain(40) + " , }",
            'def exp { splitters: uid return "A" weighted 1, "B" weighted 1 } def again { return "x" weighted 1 }']
+THREAD_NOISE = ['def n { splitters: uid return "a" weighted 1 } /* never closed', "def n { /* open", "@@@ not an experiment",
+                'def n { splitters: uid return "old_a" weighted 5, "old_b" weighted }', 'def n { splitters: uid return "a" weighted 1 ;']
 PROBES = [{"uid": "u%d" % i, "plan": p, "route": r} for i, (p, r) in enumerate([("pro", 0), ("free", 1), ("max", 3), ("free", 5),
                                                                                ("pro", 7), ("x", 39), ("pro", 40), ("free", 2)])]
 _SEQ = {}
@@ -75,6 +77,8 @@ def cases(draw, max_threads=8):
             continue
         if k == "construct":
             ops.append({"k": "construct", "src": draw(st.integers(0, len(SOURCES) - 1))})
+            if draw(st.integers(0, 2)) == 0:
+                ops[-1]["after"] = draw(st.integers(0, len(THREAD_NOISE) - 1))
         elif k == "call":
             ops.append({"k": "call", "ev": draw(st.integers(0, nshared - 1)), "probe": draw(st.integers(0, len(PROBES) - 1)),
                         "times": draw(st.integers(1, 3))})
@@ -93,7 +97,16 @@ def _build_ops(case, shared_evs, E):
     fns = []
     for op in case["ops"]:
         if op["k"] == "construct":
-            fns.append(lambda op=op: E(SOURCES[op["src"]]))
+            def c(op=op):
+                if "after" in op:
+                    # the same (pool) thread compiled somebody's odd text just before: whatever that left behind belongs to
+                    # nobody, in particular not to this thread's next compile
+                    try:
+                        E(THREAD_NOISE[op["after"] % len(THREAD_NOISE)])
+                    except Exception:
+                        pass
+                return E(SOURCES[op["src"]])
+            fns.append(c)
         elif op["k"] == "recompile_invalid":
             def h(op=op):
                 try:
@@ -403,7 +416,21 @@ def judge_case(record):
     return (judge_preemptive(c) if "rounds" in c else judge(c))["viol"]
 
 
+def noise_cases():
+    """threads that compile somebody's odd text right before their own construction, two at a time, run to completion one after
+    the other and interleaved at a few points"""
+    for n1 in range(len(THREAD_NOISE)):
+        ops = [{"k": "construct", "src": n1 % len(SOURCES), "after": n1}, {"k": "construct", "src": (n1 + 2) % len(SOURCES), "after": (n1 + 1) % len(THREAD_NOISE)},
+               {"k": "call", "ev": 0, "probe": 1, "times": 1}]
+        for sched in ([[0, 10 ** 9], [1, 10 ** 9], [2, 10 ** 9]], [[1, 10 ** 9], [0, 10 ** 9], [2, 10 ** 9]], [[0, 400], [1, 900], [0, 10 ** 9], [1, 10 ** 9], [2, 10 ** 9]]):
+            yield {"shared": [1], "ops": ops, "cycle": False, "schedule": sched}
+
+
 def run(ctx, rec):
+    if ctx.shard == 0:
+        runner.direct_run(ctx, rec, "odd-text-then-construct-in-one-thread", noise_cases(), judge)
+        if rec.violations:
+            return
     runner.hyp_run(ctx, rec, "owned-schedules", cases(), judge, ctx.n(150, 600))
     if rec.violations:
         return
